@@ -5662,7 +5662,8 @@ func NewLsPrefixTLVs(pd *LsPrefixDescriptor) []LsTLVInterface {
 		}
 
 		prefixSize := ipReach.Bits()
-		lenIpPrefix := (prefixSize-1)/8 + 1
+		// octets needed for the prefix length; none for a /0
+		lenIpPrefix := (prefixSize + 7) / 8
 		ip := ipReach.Addr().AsSlice()
 
 		lsTLVs = append(lsTLVs, &LsTLVIPReachability{
